@@ -30,6 +30,7 @@ pub struct FamOpts {
     pub wide: bool,
     pub breaking: Vec<BreakKind>,
     pub send_sync: bool,
+    pub send_only: bool,
     pub tag: &'static str,
 }
 
@@ -506,6 +507,7 @@ pub fn gen_family(rng: &mut Rng, idx: usize, o: &FamOpts) -> Family {
         revs,
         async_trait: o.async_trait,
         send_sync: o.send_sync,
+        send_only: o.send_only && !o.send_sync,
         tags: vec![o.tag.to_string()],
     };
     for (bi, kind) in o.breaking.iter().enumerate() {
@@ -527,6 +529,9 @@ pub fn batch_stats(fams: &[Family]) -> BTreeMap<String, usize> {
         }
         if f.send_sync {
             inc("families.send_sync".into());
+        }
+        if f.send_only {
+            inc("families.send_only".into());
         }
         for t in &f.tags {
             inc(format!("families.tag.{}", t));
@@ -576,12 +581,13 @@ pub fn gen_batch(seed: u64, scale: usize) -> Batch {
         fams.push(gen_family(&mut r, idx, &o));
         idx += 1;
     };
-    let base = FamOpts { n_revs: 1, async_trait: false, futures: false, wide: false, breaking: vec![], send_sync: false, tag: "compat" };
+    let base = FamOpts { n_revs: 1, async_trait: false, futures: false, wide: false, breaking: vec![], send_sync: false, send_only: false, tag: "compat" };
     // fixed part
     push(&mut fixed, FamOpts { wide: true, tag: "wide", ..base.clone() }, &mut fams);
     push(&mut fixed, FamOpts { n_revs: 2, async_trait: true, send_sync: true, tag: "async_trait", ..base.clone() }, &mut fams);
     push(&mut fixed, FamOpts { n_revs: 2, futures: true, tag: "boxed_future", ..base.clone() }, &mut fams);
     push(&mut fixed, FamOpts { n_revs: 3, ..base.clone() }, &mut fams);
+    push(&mut fixed, FamOpts { n_revs: 2, send_only: true, tag: "send_only", ..base.clone() }, &mut fams);
     push(&mut fixed, FamOpts { n_revs: 4, send_sync: true, ..base.clone() }, &mut fams);
     push(&mut fixed, FamOpts { n_revs: 2, breaking: all_breaks.to_vec(), tag: "breaking", ..base.clone() }, &mut fams);
     push(&mut fixed, FamOpts { n_revs: 2, async_trait: true, send_sync: true, breaking: vec![BreakKind::ArgTypeChanged], tag: "breaking", ..base.clone() }, &mut fams);
@@ -594,6 +600,8 @@ pub fn gen_batch(seed: u64, scale: usize) -> Batch {
         push(&mut seeded, FamOpts { n_revs: n, send_sync: true, ..base.clone() }, &mut fams);
         let n = nrev(&mut seeded);
         push(&mut seeded, FamOpts { n_revs: n, futures: true, ..base.clone() }, &mut fams);
+        let n = nrev(&mut seeded);
+        push(&mut seeded, FamOpts { n_revs: n, send_only: true, tag: "send_only", ..base.clone() }, &mut fams);
         if s == 0 {
             push(&mut seeded, FamOpts { n_revs: 2, async_trait: true, send_sync: true, tag: "async_trait", ..base.clone() }, &mut fams);
         }
